@@ -399,7 +399,7 @@ func c10Run(c *Ctx) {
 	})
 	// sub-key family: typed leaves so that value conditions can match
 	g2 := newGen(GenP{Keys: []string{"a", "b", "k"}, MaxList: 3, MaxKeys: 3, EmptyList: false, EmptyMap: true, ListInList: false, Leaves: []interface{}{"s", 1.0}})
-	subsets := [][]string{{"a:*"}, {"!a:*"}, {"a:s"}, {"!a:s"}, {"a:1:num"}, {"b:*"}, {"z:*"}, {"!z:q"}, {"a:s", "b:*"}, {"a:*", "!b:1:num"}}
+	subsets := [][]string{{"a:*"}, {"!a:*"}, {"a:s"}, {"!a:s"}, {"a:1:num"}, {"b:*"}, {"z:*"}, {"!z:q"}, {"a:s", "b:*"}, {"a:*", "!b:1:num"}, {"!z:*", "a:q"}, {"a:q", "!z:*"}, {"!z:*", "b:*"}}
 	var paths2 []string
 	seqs([]string{"a", "b", "k", "*"}, 2, func(s []string) { paths2 = append(paths2, strings.Join(s, ".")) })
 	g2.rootMaps(n2, func(t *T) {
